@@ -9,17 +9,20 @@
 (* scratch array that _query_linear fills: cols[r] = fasthash64(key,r-1)   *)
 (* % W + 1.  The kernel is independent of how cols was obtained.           *)
 (***************************************************************************)
-EXTENDS Num, FiniteSets
+EXTENDS Num, FiniteSets, TLC
 CONSTANT NCap            \* counter ceiling: 2^32-1 in the code
 
 LinEmpty(W, D) == [tbl  |-> [r \in 1..D |-> [c \in 1..W |-> NZero]],
                    nadd |-> NZero, nrec |-> NZero]
 
 \* _query_linear: minimum over the rows, starting from the ceiling
-LinEst(sk, cols) ==
-  LET m[r \in 0..Len(cols)] ==
-        IF r = 0 THEN NCap ELSE NMin(m[r - 1], sk.tbl[r][cols[r]])
-  IN  m[Len(cols)]
+\* (an accumulating recursion with forced intermediate values: a LET-defined recursive function
+\* m[r] == NMin(m[r-1], ..) re-evaluates m[r-1] for every reference, 2^depth evaluations)
+RECURSIVE LinEstFrom(_, _, _, _)
+LinEstFrom(sk, cols, r, acc) ==
+  IF r > Len(cols) THEN acc
+  ELSE LinEstFrom(sk, cols, r + 1, TLCEval(NMin(acc, sk.tbl[r][cols[r]])))
+LinEst(sk, cols) == LinEstFrom(sk, cols, 1, NCap)
 
 \* CountMinLinear.add(key, v0) = min(v0, ceiling) then _add_linear
 LinAdd(sk, cols, v0) ==
@@ -38,7 +41,7 @@ LinAdd(sk, cols, v0) ==
 RECURSIVE LinAddAll(_, _)
 LinAddAll(sk, cvs) ==
   IF cvs = <<>> THEN sk
-  ELSE LinAddAll(LinAdd(sk, Head(cvs)[1], Head(cvs)[2]), Tail(cvs))
+  ELSE LinAddAll(TLCEval(LinAdd(sk, Head(cvs)[1], Head(cvs)[2])), Tail(cvs))   \* (forced: a chain of lazy tables is re-evaluated per cell)
 
 \* _merge_linear: element-wise saturating sum; both bookkeeping counters summed
 LinMerge(a, b) ==
